@@ -324,16 +324,16 @@ func ruleR04a(c *Check) {
 	// The guards are *inferred* on every run — field F of struct T is guarded by T's mutex field M when some
 	// function writes F while holding <base>.M — and every access to an inferred field is then checked.
 	// guardTable lists the pairs confirmed by reading the code (struct comments); it fixes the minimum the
-	// inference must find, by (type, mutex) so that renaming a guarded field does not lose the rule.
+	// inference must find, per struct type so that renaming a guarded field or its mutex does not lose the rule.
 	inferred := inferGuards(c, ls)
 	found := map[string]int{}
 	for _, g := range inferred {
-		found[g.T+"/"+g.Mutex]++
+		found[g.T]++
 		checkGuard(g)
 	}
 	want := map[string]int{}
 	for _, g := range guardTable {
-		want[g.T+"/"+g.Mutex]++
+		want[g.T]++
 	}
 	var wk []string
 	for k := range want {
@@ -342,7 +342,7 @@ func ruleR04a(c *Check) {
 	sort.Strings(wk)
 	for _, k := range wk {
 		if found[k] < want[k] {
-			c.Unknown("R04a", "guarded-fields/"+k, fmt.Sprintf("anchor-unresolved: %d field(s) are written under this mutex, %d were confirmed by hand: a guarded field lost its guard (or the struct changed beyond recognition)", found[k], want[k]), "-")
+			c.Unknown("R04a", "guarded-fields/"+k, fmt.Sprintf("anchor-unresolved: %d field(s) of this struct are written under one of its mutexes, %d were confirmed by hand: a guarded field lost its guard (or the struct changed beyond recognition)", found[k], want[k]), "-")
 		}
 	}
 	// the loader's shared package map (locals of the function that spawns the loader goroutines)
